@@ -245,19 +245,21 @@ def atoi (s : Bytes) : Int :=
 
 def ptrue (p : Props) (k : String) : Bool := pget p (asc k) = asc "true"
 
+/-- The indent size `propsOptions` computes. -/
+def propsIndent (p : Props) : Nat :=
+  if pget p (asc "indent_style") = asc "space" then
+    let n := atoi (pget p (asc "indent_size"))
+    if n > 0 then n.toNat else 8
+  else 0
+
 /-- `propsOptions`: `none` = the Go code panics (`syntax.Variant(LangAuto)`).
     Second component: `validLang` (shell_variant was set to a known name). -/
 def propsOptions (fileLang : Lang) (p : Props) : Option (Opts × Bool) :=
   let sv := langOfName (pget p (asc "shell_variant"))
   let lang := sv.getD fileLang
   if lang = .auto then none else
-  let size : Nat :=
-    if pget p (asc "indent_style") = asc "space" then
-      let n := atoi (pget p (asc "indent_size"))
-      if n > 0 then n.toNat else 8
-    else 0
   let mn := ptrue p "minify"
-  some ({ lang := lang, indent := size
+  some ({ lang := lang, indent := propsIndent p
           bn := ptrue p "binary_next_line", ci := ptrue p "switch_case_indent"
           sr := ptrue p "space_redirects", kp := ptrue p "keep_padding"
           fn := ptrue p "function_next_line", mn := mn
@@ -403,34 +405,34 @@ def formatBytes (F : Fmt) (D : Dif) (f : Flags) (e : Entry) (path src : Bytes) (
     | .langErr msg => { errLine := some (msg ++ langErrSuffix f o fromEC), fail := true }
     | .ok res => outcome f.list f.write f.diff path src res (D path src res) (e.kind == .reg)
 
-/-- `formatPath(path, checkShebang)`. -/
+/-- `formatPath(path, checkShebang)`.  The Go code reads the 32-byte head only when it needs the
+    shebang (`checkShebang || shebangForAuto`) and then sets the language from it; that is
+    `fileLang` above (the `-ln` value, else the filename, else the shebang of the head). -/
 def formatPath (F : Fmt) (D : Dif) (f : Flags) (e : Entry) (checkShebang : Bool) : Step :=
-  let l0 := lnVal f
-  let l1 := if l0 != .auto then l0 else langFromFilename e.path
-  let shebangForAuto := l1 == .auto
   let hd := headOf e.src
   if checkShebang && hd.length < 9 then {} else            -- too short to have a shebang
   if checkShebang && shebang hd = [] then {} else          -- not a shell script
-  let l := if shebangForAuto then langFromShebang hd else l1
   match f.find with
   | .nl => { stdout := e.path ++ [nl] }
   | .nul => { stdout := e.path ++ [0] }
-  | .off => formatBytes F D f e e.path e.src l
+  | .off => formatBytes F D f e e.path e.src (fileLang f e.path e.src)
 
-inductive Visit
-  | step (s : Step)       -- formatPath was called
-  | skip                  -- return nil without formatting
-  | skipDir               -- filepath.SkipDir
-  | error (msg : Bytes)   -- the callback returned an error (printed by main, status 1)
+/-- What the `filepath.WalkDir` callback of main() decides for an entry, before any file is
+    read: it depends on the walk flags and on the entry's name, kind, mode and ignore rule only. -/
+inductive Decision
+  | format (checkShebang : Bool)   -- call formatPath
+  | skip                           -- return nil
+  | skipDir                        -- filepath.SkipDir
+  | error (msg : Bytes)            -- return an error (printed by main, status 1)
   | panic
+  deriving DecidableEq, Repr
 
 def isVcsDir (name : Bytes) : Bool :=
   name = asc ".git" || name = asc ".svn" || name = asc ".hg"
 
 def enoent : Bytes := asc ": no such file or directory"
 
-/-- The `filepath.WalkDir` callback of main(). -/
-def visit (F : Fmt) (D : Dif) (f : Flags) (e : Entry) : Visit :=
+def visitDecision (f : Flags) (e : Entry) : Decision :=
   if e.kind == .missing then .error (asc "lstat " ++ e.path ++ enoent) else
   let name := base e.path
   if e.kind == .dir && isVcsDir name then .skipDir else
@@ -453,8 +455,25 @@ def visit (F : Fmt) (D : Dif) (f : Flags) (e : Entry) : Visit :=
           | .dflt => c0
         else c0
       if c == .notScript then .skip
-      else .step (formatPath F D f e (c == .ifShebang))
-  else .step (formatPath F D f e false)
+      else .format (c == .ifShebang)
+  else .format false
+
+inductive Visit
+  | step (s : Step)       -- formatPath was called
+  | skip
+  | skipDir
+  | error (msg : Bytes)
+  | panic
+  deriving DecidableEq, Repr
+
+/-- The `filepath.WalkDir` callback of main(). -/
+def visit (F : Fmt) (D : Dif) (f : Flags) (e : Entry) : Visit :=
+  match visitDecision f e with
+  | .format cs => .step (formatPath F D f e cs)
+  | .skip => .skip
+  | .skipDir => .skipDir
+  | .error m => .error m
+  | .panic => .panic
 
 /-- Result of a whole run. -/
 structure Out where
@@ -499,11 +518,27 @@ def collect : List (Entry × Visit) → Out → Out
     | .step s =>
       if s.panicked then { o with status := 2, panicked := true } else
       collect rest
-        { stdout := o.stdout ++ s.stdout
+        { o with
+          stdout := o.stdout ++ s.stdout
           stderr := o.stderr ++ s.errLine.toList
           writes := o.writes ++ (s.write.map fun w => (e.path, w)).toList
-          status := if s.fail then 1 else o.status
-          panicked := false }
+          status := if s.fail then 1 else o.status }
+
+/-- A visit that printed its path because of `-l`. -/
+def listedV : Visit → Bool
+  | .step s => s.listed
+  | _ => false
+
+/-- A visit that reported an error on stderr. -/
+def errorV : Visit → Bool
+  | .step s => s.errLine.isSome
+  | .error _ => true
+  | _ => false
+
+def panicV : Visit → Bool
+  | .step s => s.panicked
+  | .panic => true
+  | _ => false
 
 def startupMsg : Bytes := asc "-p and -ln=lang cannot coexist"
 
